@@ -39,7 +39,8 @@ META = {
     "rule": "a case is an operation history reaching a distinct state (cache entry, raw body and header fields of both "
             "messages); non-trivial = the state holds a populated cache entry or a message with a content coding",
     "assumptions": [
-        "bodies {empty, 'a', 'abc'*20, 00 ff}; codings {identity, none, gzip, deflate, br, zstd, GZip, unknown foo, text codec utf8}; "
+        "bodies {empty, 'a', 'abc'*20, 00 ff}; codings {header absent, header present with empty value, identity, none, gzip, deflate, br, zstd, GZip, unknown foo, "
+        "text codec utf8}; an empty Content-Encoding value lists no coding and is read as identity; "
         "compressed inputs from independent encoders at other levels, truncated streams, the byte 'x', the empty string, "
         "a zlib stream labelled gzip, a raw deflate stream and a gzip stream labelled deflate",
         "the reference decoders are the library entry points gzip.decompress / zlib.decompress (zlib or raw deflate) / "
@@ -160,6 +161,8 @@ def sem(raw, coding):
 def coding_kind(c):
     if c is None:
         return "absent"
+    if c == "":
+        return "empty-value"  # header field present with an empty value: no coding listed, i.e. identity
     lc = c.lower()
     if lc in ("identity", "none"):
         return "identity"
@@ -185,16 +188,16 @@ def core_alphabet():
                  ("x", "foo")):
         acts.append(["dec", n, c, "strict"])
     acts.append(["dec", "gzip:a", "gzip", "ignore"])
-    for c in (None, "gzip", "deflate", "br", "GZip", "foo"):
+    for c in (None, "", "gzip", "deflate", "br", "GZip", "foo"):
         for b in ("empty", "a", "abc20"):
             acts.append(["assign", 0, c, b])
     for n, c in (("gzip:a", "gzip"), ("gzip:trunc", "gzip"), ("x", "gzip"), ("empty", "gzip"), ("deflate:a", "deflate"),
-                 ("zlib:a", "gzip"), ("br:a", "br"), ("x", "foo")):
+                 ("zlib:a", "gzip"), ("br:a", "br"), ("x", "foo"), ("x", "")):
         acts.append(["wire", 0, n, c])
     for strict in (True, False):
         acts.append(["get", 0, strict])
         acts.append(["decode", 0, strict])
-    for c in ("identity", "gzip", "deflate", "br"):
+    for c in ("identity", "", "gzip", "deflate", "br"):
         acts.append(["encode", 0, c])
     for c in (None, "gzip", "deflate"):
         for b in ("empty", "a"):
@@ -232,7 +235,8 @@ def alphabet(level: str):
     # message level; message 1 gets the reduced set unless `full`
     for m in (0, 1):
         rich = full or m == 0
-        a_codings = [None, "identity", "gzip", "deflate", "br", "zstd", "GZip", "foo", "utf8"] if rich else [None, "gzip", "deflate", "foo"]
+        # "" = header field present with an empty value (no coding listed)
+        a_codings = [None, "", "identity", "gzip", "deflate", "br", "zstd", "GZip", "foo", "utf8"] if rich else [None, "gzip", "deflate", "foo"]
         a_bodies = bodies if rich else ["empty", "a"]
         for c in a_codings:
             for b in a_bodies:
@@ -242,13 +246,13 @@ def alphabet(level: str):
             w += [("%s:a" % c, c), ("%s:trunc" % c, c), ("x", c), ("empty", c)]
         w += [("zlib:a", "gzip"), ("rawdeflate:a", "deflate")]
         if rich:
-            w += [("gzip:a", "GZip"), ("gzip:a", "deflate"), ("x", "foo"), ("x", "utf8"), ("x", None)]
+            w += [("gzip:a", "GZip"), ("gzip:a", "deflate"), ("x", "foo"), ("x", "utf8"), ("x", None), ("x", "")]
         for n, c in w:
             acts.append(["wire", m, n, c])
         for strict in (True, False) if rich else (True,):
             acts.append(["get", m, strict])
             acts.append(["decode", m, strict])
-        for c in ["identity", "gzip", "deflate", "br", "zstd", "GZip", "foo"] if rich else ["gzip", "deflate"]:
+        for c in ["identity", "", "gzip", "deflate", "br", "zstd", "GZip", "foo"] if rich else ["gzip", "deflate"]:
             acts.append(["encode", m, c])
     return acts
 
